@@ -67,7 +67,7 @@ def _case(draw, stratum):
             regime = "roomy"  # the labware must be able to supply / take an oversized step, otherwise the volume check refuses first
         if i == 0 and stratum[0] == "distribute":
             kind, regime = "trough", draw(st.sampled_from(["roomy", "roomy", "tight"]))  # a supply trough
-        labs.append(draw(lab_spec(names[i], kind=kind, max_rows=8, max_cols=8 if kind == "plate" else 4, regime=regime, grid=True, allow_names=False, pos=(10 + i, 1 + i), filled=True if (i == 0 or stratum[1] == "oversize") else None)))
+        labs.append(draw(lab_spec(names[i], kind=kind, max_rows=8, max_cols=8 if kind == "plate" else 4, regime=regime, grid=True, allow_names=False, pos=(10 + i, 1 + i), filled=True if (i == 0 or stratum[1] == "oversize") else None, min_cols=2 if (i == 0 and stratum[0] == "distribute") else 1)))
     vs = vs_ok(0.01)
     # "hint": draw from a well that was empty at the start and has been filled by a raw dispense (its composition is
     # unknown to the tracking), and deliver into one fixed well - a multi-step history
